@@ -13,7 +13,9 @@ TRUSTED = [
 ]
 ASSUMPTIONS = [
     "the recurrence yields a finite strictly increasing sequence (C01 for rrule, C10 for rruleset); infinite rules are outside C12's statement",
-    "replace(): proved on C01's constructor model (replace = construct(origArgs (+) kw), replace() = r); tied to the code by query.replace from the "
+    "replace(): the method itself is TRANSLATED from the source on every run (harness/translate_replace.py -> Gen.replaceProgram; replace_eq_construct_partial; "
+    "validated by query.replace_gen); the `_original_rule` bookkeeping of rrule.__init__ is the hand model RRule.origArgs (C01). "
+    "Proved on C01's constructor model (replace = construct(origArgs (+) kw), replace() = r); tied to the code by query.replace from the "
     "ORIGINAL constructor arguments; the literal bysetpos=() is excluded from replace_nothing_id (stored as (), not recorded, rebuilt as None)",
     "datetimes are mapped to integers (seconds since 2020-01-01) order-isomorphically; comparison of datetimes is CPython's",
 ]
@@ -28,6 +30,7 @@ RULE = ("rules: SECONDLY/MINUTELY/HOURLY/DAILY/WEEKLY with interval, byweekday, 
 MODES = ("off", "fresh", "complete")
 
 
+PARAMS = {}        # family label -> constructor keywords (JSON form) of single-rule families, for replay
 SPECIAL = {}       # family label -> instants that every query pool of that family must contain (UNTIL, UNTIL +- 1 s, dtstart, ...)
 
 
@@ -40,6 +43,7 @@ def rule_family(ctx, rng, nrand):
         label = "rrule %r" % sorted((k, str(v)) for k, v in p.items())
         fams.append((label, (lambda p: lambda cache: rrlib.make_rule(p, cache))(p)))
         SPECIAL[label] = list(special)
+        PARAMS[label] = rrlib.params_record(p)
     for n in (0, 1, 2, 5, 9, 10, 11, 12):
         fams.append(("stepped n=%d" % n, (lambda n: lambda cache: rrlib.stepped(n, cache, step=3, start=0))(n)))
     # UNTIL exactly at the last occurrence (inclusive), one second either side, at / before dtstart; and COUNT+UNTIL
@@ -58,8 +62,15 @@ def rule_family(ctx, rng, nrand):
         add_rule(p)
         for q, special in rrlib.until_variants(rng, p, 2):
             add_rule(q, special)
+    # COUNT cut short by datetime.MAXYEAR (count() on a fresh object must be len(list(rule)), not COUNT), and calendar rules with
+    # several occurrences per period that cross a year boundary (masks rebuilt mid-sequence)
+    for _ in range(max(2, nrand // 4)):
+        add_rule(rrlib.maxyear_rule_params(rng))
+        add_rule(rrlib.calendar_rule_params(rng))
     for _ in range(max(2, nrand // 3)):
         ps = [rrlib.random_rule_params(rng, 8) for _ in range(rng.randint(0, 2))]
+        if rng.random() < 0.25:
+            ps.append(rng.choice([rrlib.maxyear_rule_params, rrlib.calendar_rule_params])(rng))
         special = []
         if ps and rng.random() < 0.6:
             q, special = rrlib.until_variants(rng, ps[0], 1)[0]
@@ -178,7 +189,7 @@ def oracle(ctx):
     for label, L, q, mode, out, ref in getattr(ctx, "_c12_bad", []):
         ctx.case((tuple(L), q, mode, "corr"), nontrivial=out.startswith("ok"))
         ctx.violation("%s on %s (cache %s): implementation %s, list semantics %s" % (q_wire(q), label, mode, out, ref),
-                      {"kind": "query", "L": L, "q": list(q), "mode": mode, "label": label, "origin": "correspondence"}, {"impl": out, "list": ref})
+                      {"kind": "query", "L": L, "q": list(q), "mode": mode, "label": label, "origin": "correspondence", "params": PARAMS.get(label)}, {"impl": out, "list": ref})
     try:
         import props.c11 as c11
         c11.judge_query_histories(ctx)
@@ -201,7 +212,7 @@ def oracle(ctx):
                     ctx.count("raised_" + got.split()[1])
                 if got != want:
                     ctx.violation("%s on %s (cache %s): implementation %s, list semantics %s" % (q_wire(q), label, mode, got, want),
-                                  {"kind": "query", "L": L, "q": list(q), "mode": mode, "label": label}, {"impl": got, "list": want})
+                                  {"kind": "query", "L": L, "q": list(q), "mode": mode, "label": label, "params": PARAMS.get(label)}, {"impl": got, "list": want})
         # histories: random query order on ONE object, cached or not; every other one starts with a partial query
         # (index, early exit, abandoned iteration) followed by count() / len-dependent queries
         for hno in range(ctx.budget(4, 10)):
@@ -218,12 +229,118 @@ def oracle(ctx):
                 ctx.count("history_queries")
                 if got != want:
                     ctx.violation("history %s on %s (cache=%s): %s gave %s, list semantics %s" % (hist, label, hcache, q_wire(q), got, want),
-                                  {"kind": "history", "L": L, "history": hist, "label": label, "cache": hcache}, {"impl": got, "list": want})
+                                  {"kind": "history", "L": L, "history": hist, "label": label, "cache": hcache, "params": PARAMS.get(label)}, {"impl": got, "list": want})
                     break
+    live_iterator_histories(ctx, rng)
     oracle_replace(ctx, rng)
     ctx.sample({"L": [0, 3, 6, 9, 12], "q": "sl:-3:-:2", "impl": run_mode(lambda c: rrlib.stepped(5, c, 3), "off", ("sl", -3, None, 2))[0]})
     ctx.sample({"L": [0, 3, 6, 9, 12], "q": "sl:-:-:0", "impl": run_mode(lambda c: rrlib.stepped(5, c, 3), "fresh", ("sl", None, None, 0))[0]})
     ctx.sample({"L": [0, 3, 6, 9, 12], "q": "btw:3:9:1", "impl": run_mode(lambda c: rrlib.stepped(5, c, 3), "complete", ("btw", 3, 9, True))[0]})
+
+
+def live_iterator_histories(ctx, rng):
+    """answers do not depend on which queries ran before NOR on iterators that are still alive: live iterators over a rule (cached or
+    not) interleaved with queries on the same object, and two sets sharing one rule object walked alternately.  Every iterator must
+    list exactly L and every query must be the list-semantics answer, whatever the interleaving."""
+    from dateutil import rrule as R
+    import itertools
+    for i in range(ctx.budget(120, 1200)):
+        p = rrlib.calendar_rule_params(rng) if i % 3 else rng.choice([rrlib.random_rule_params, rrlib.maxyear_rule_params])(rng)
+        cache = rng.random() < 0.3
+        shape = rng.choice(["rule", "rule", "two-sets", "set-twice"])
+        objs, exp = live_objects(p, cache, shape, [rng.random() < 0.3, rng.random() < 0.3])
+        its = []            # [object index, iterator, received]
+        script = []
+        ok = True
+        for step in range(rng.randint(3, 10)):
+            r = rng.random()
+            if r < 0.3 or not its:
+                o = rng.randrange(len(objs))
+                its.append([o, iter(objs[o]), []])
+                script.append("open%d" % o)
+                act = ("next", len(its) - 1, rng.randint(0, 3))
+            elif r < 0.65:
+                act = ("next", rng.randrange(len(its)), rng.choice([1, 1, 2, 3, 100]))
+            else:
+                o = rng.randrange(len(objs))
+                q = rng.choice([("cnt",), ("all",), ("idx", -1), rrlib.random_query(rng, exp[o]), rrlib.random_query(rng, exp[o])])
+                act = ("q", o, q)
+            if act[0] == "next":
+                ent = its[act[1]]
+                try:
+                    got = ints(list(itertools.islice(ent[1], act[2])))
+                except Exception as ex:
+                    got = "err " + type(ex).__name__
+                script.append("it%d+%d" % (act[1], act[2]))
+                want = exp[ent[0]][len(ent[2]):len(ent[2]) + act[2]]
+                if got != want:
+                    ok = False
+                    what = "iterator %d (over object %d) continued with %s, the listed sequence continues with %s" % (act[1], ent[0], got, want)
+                    break
+                ent[2] += got
+            else:
+                got, want = impl_query(objs[act[1]], act[2]), py_query(exp[act[1]], act[2])
+                script.append("q%d:%s" % (act[1], q_wire(act[2])))
+                if got != want:
+                    ok = False
+                    what = "%s on object %d gave %s, list semantics %s" % (q_wire(act[2]), act[1], got, want)
+                    break
+        ctx.case(("live", shape, repr(sorted((k, str(v)) for k, v in p.items())), cache, tuple(script)), nontrivial=True)
+        ctx.count("live_iterator_histories"); ctx.count("live_shape_" + shape)
+        if not ok:
+            ctx.violation("live iterators and queries over %s (%s, rule cache=%s), steps %s: %s" % (shape, p, cache, ",".join(script), what),
+                          {"kind": "live", "shape": shape, "params": rrlib.params_record(p), "cache": cache, "script": script,
+                           "set_caches": [o._cache is not None for o in objs]}, None)
+
+
+def live_objects(p, cache, shape, set_caches):
+    from dateutil import rrule as R
+    L = ints(list(rrlib.make_rule(p, False)))
+    rule = rrlib.make_rule(p, cache)
+    if shape == "rule":
+        return [rule], [L]
+    if shape == "two-sets":
+        a, b = R.rruleset(cache=set_caches[0]), R.rruleset(cache=set_caches[1])
+        a.rrule(rule); b.rrule(rule)
+        extra = (L[0] if L else 0) - 86400 * 400
+        b.rdate(rrlib.to_dt(extra))
+        return [a, b, rule], [L, sorted(set(L + [extra])), L]
+    a = R.rruleset(cache=set_caches[0])
+    a.rrule(rule); a.rrule(rule)
+    x = L[len(L) // 2] if L else 0
+    a.exdate(rrlib.to_dt(x))
+    return [a], [[v for v in L if v != x]]
+
+
+def replay_live(c):
+    import itertools
+    objs, exp = live_objects(rrlib.params_rebuild(c["params"]), c["cache"], c["shape"], c.get("set_caches") or [False, False, False])
+    its = []
+    ok = True
+    for tok in c["script"]:
+        if tok.startswith("open"):
+            o = int(tok[4:])
+            its.append([o, iter(objs[o]), []])
+        elif tok.startswith("it"):
+            j, k = tok[2:].split("+")
+            ent = its[int(j)]
+            try:
+                got = ints(list(itertools.islice(ent[1], int(k))))
+            except Exception as ex:
+                got = "err " + type(ex).__name__
+            want = exp[ent[0]][len(ent[2]):len(ent[2]) + int(k)]
+            print("replay %s: got %s, the listed sequence continues with %s" % (tok, got, want))
+            if got != want:
+                return False
+            ent[2] += got
+        else:
+            o, qt = tok[1:].split(":", 1)
+            q = rrlib.q_parse(qt)
+            got, want = impl_query(objs[int(o)], q), py_query(exp[int(o)], q)
+            print("replay %s: impl=%s list=%s" % (tok, got, want))
+            if got != want:
+                return False
+    return ok
 
 
 def oracle_replace(ctx, rng):
@@ -247,6 +364,56 @@ def oracle_replace(ctx, rng):
                                   % (R.FREQNAMES[freq], d0, d1, got, want),
                                   {"kind": "replace", "params": {"freq": freq, "dtstart": str(d0), "count": 4}, "kw": {"dtstart": str(d1)}},
                                   {"impl": got, "merged": want})
+    # every scalar attribute that is not named survives replace() — checked on the attributes themselves (a lost UNTIL would make
+    # the listing infinite), on UNTIL-bounded, COUNT-bounded and COUNT+UNTIL rules, cache on and off
+    for i in range(ctx.budget(40, 300)):
+        p0 = rrlib.random_rule_params(rng)
+        variants = [(p0, [])] + rrlib.until_variants(rng, p0, 2)
+        for p, _sp in variants:
+            cache = rng.random() < 0.5
+            r = rrlib.make_rule(p, cache)
+            name = rng.choice(["interval", "wkst", "byhour", "freq", "dtstart", "count", "until"])
+            kw = {"interval": {"interval": p["interval"]}, "wkst": {"wkst": rng.randint(0, 6)}, "byhour": {"byhour": (p["dtstart"].hour,)},
+                  "freq": {"freq": p["freq"]}, "dtstart": {"dtstart": p["dtstart"]}, "count": {"count": p.get("count")},
+                  "until": {"until": p.get("until")}}[name]
+            import warnings
+            with warnings.catch_warnings():
+                warnings.simplefilter("ignore")
+                try:
+                    r2 = r.replace(**kw)
+                    got = {"interval": r2._interval, "count": r2._count, "dtstart": r2._dtstart, "freq": r2._freq, "until": r2._until,
+                           "wkst": r2._wkst if "wkst" not in kw else None, "cache": r2._cache is not None}
+                except Exception as ex:
+                    got = "err " + type(ex).__name__
+            want = {"interval": r._interval, "count": r._count, "dtstart": r._dtstart, "freq": r._freq, "until": r._until,
+                    "wkst": r._wkst if "wkst" not in kw else None, "cache": cache}
+            ctx.case(("replace-attrs", repr(sorted((k, str(v)) for k, v in p.items())), name, cache))
+            ctx.count("replace_scalar_attributes")
+            if got != want:
+                ctx.violation("rrule(%r, cache=%s).replace(%r): scalar attributes of the new rule %s, of the original %s" % (p, cache, kw, got, want),
+                              {"kind": "replace-attrs", "params": rrlib.params_record(p), "kw": rrlib.params_record(kw), "cache": cache}, None)
+    # count() asked FIRST on a fresh / replace()d rule whose COUNT is cut short by year 9999
+    for i in range(ctx.budget(12, 60)):
+        p = rrlib.maxyear_rule_params(rng)
+        kw = rng.choice([{"interval": p.get("interval", 1)}, {"count": p["count"] + rng.randint(0, 5)}, {"wkst": rng.randint(0, 6)}])
+        for cache in (False, True):
+            q = dict(p); q.update(kw)
+            try:
+                n = len(list(rrlib.make_rule(q, False)))
+            except ValueError:
+                # list(rule) itself raises (WEEKLY near year 9999 with a week start after the start's weekday: "year 10000 is out of
+                # range" — a C01 matter, reported to the C01 builder): not a finite rule, outside C12's statement
+                ctx.count("count_first_rule_not_listable")
+                continue
+            fresh = rrlib.make_rule(q, cache).count()
+            rep = rrlib.make_rule(p, cache).replace(**kw).count()
+            ctx.case(("count-first", repr(sorted((k, str(v)) for k, v in q.items())), cache))
+            ctx.count("count_first_maxyear")
+            if fresh != n or rep != n:
+                ctx.violation("count() asked first on rrule(%r) (cache=%s): fresh object %r, replace(%r) of rrule(%r) %r, len(list(rule)) = %d"
+                              % (q, cache, fresh, kw, p, rep, n),
+                              {"kind": "count-first", "params": rrlib.params_record(p), "kw": rrlib.params_record(kw), "cache": cache},
+                              {"fresh": fresh, "replaced": rep, "len": n})
     for _ in range(ctx.budget(150, 1500)):
         p = rrlib.random_rule_params(rng)
         kw = {}
@@ -269,7 +436,11 @@ def oracle_replace(ctx, rng):
             except Exception:
                 pass
         try:
-            got = ints(list(r.replace(**kw)))
+            r2 = r.replace(**kw)
+            n_first = r2.count() if rng.random() < 0.5 else None           # count() before anything else on the new rule
+            got = ints(list(r2))
+            if n_first is not None and n_first != len(got):
+                got = "count() first = %r, len(list) = %d" % (n_first, len(got))
         except Exception as ex:
             got = "err " + type(ex).__name__
         q = dict(p); q.update(kw)
@@ -379,6 +550,9 @@ def corr_replace(ctx, rng):
         if c["kind"] == "naive" and not c.get("until_isdate"):
             reqs.append("query.replace_rec %s %s" % (" ".join(recorded_wire(r, c["kind"])), " ".join(kwt)))
             exp.append(out)
+            # … and through the program translated from the source of rrule.replace (Gen.replaceProgram)
+            reqs.append("query.replace_gen %s %s" % (" ".join(recorded_wire(r, c["kind"])), " ".join(kwt)))
+            exp.append(out)
         ctx.count("replace_keys_%d" % len(keys))
         for k in keys:
             ctx.count("replace_kw_" + k)
@@ -401,6 +575,8 @@ def replay(ctx, payload):
         from dateutil import rrule as R
 
         def fac(cache):
+            if c.get("params"):
+                return rrlib.make_rule(rrlib.params_rebuild(c["params"]), cache)      # the very rule of the failing case
             s = R.rruleset(cache=cache)
             for x in L:
                 s.rdate(rrlib.to_dt(x))
@@ -412,9 +588,12 @@ def replay(ctx, payload):
     if c.get("kind") == "history":
         from dateutil import rrule as R
         L = c["L"]
-        s = R.rruleset(cache=c.get("cache", True))
-        for x in L:
-            s.rdate(rrlib.to_dt(x))
+        if c.get("params"):
+            s = rrlib.make_rule(rrlib.params_rebuild(c["params"]), c.get("cache", True))
+        else:
+            s = R.rruleset(cache=c.get("cache", True))
+            for x in L:
+                s.rdate(rrlib.to_dt(x))
         ok = True
         for q in c["history"]:
             q = tuple(q)
@@ -425,5 +604,26 @@ def replay(ctx, payload):
     if c.get("kind") == "qhist":
         import props.c11 as c11
         return c11.replay(ctx, payload)
+    if c.get("kind") == "count-first":
+        p, kw = rrlib.params_rebuild(c["params"]), rrlib.params_rebuild(c["kw"])
+        q = dict(p); q.update(kw)
+        n = len(list(rrlib.make_rule(q, False)))
+        fresh = rrlib.make_rule(q, c["cache"]).count()
+        rep = rrlib.make_rule(p, c["cache"]).replace(**kw).count()
+        print("replay count() first: fresh %r, replace()d %r, len(list(rule)) %d" % (fresh, rep, n))
+        return fresh == n and rep == n
+    if c.get("kind") == "live":
+        return replay_live(c)
+    if c.get("kind") == "replace-attrs":
+        import warnings
+        p, kw = rrlib.params_rebuild(c["params"]), rrlib.params_rebuild(c["kw"])
+        with warnings.catch_warnings():
+            warnings.simplefilter("ignore")
+            r = rrlib.make_rule(p, c["cache"])
+            r2 = r.replace(**kw)
+        a = (r._interval, r._count, r._dtstart, r._freq, r._until, r._cache is not None)
+        b = (r2._interval, r2._count, r2._dtstart, r2._freq, r2._until, r2._cache is not None)
+        print("replay replace(%r): original (interval, count, dtstart, freq, until, cache) %s, new %s" % (kw, a, b))
+        return a == b or any(k in kw for k in ("interval", "count", "dtstart", "freq", "until"))
     print("replay: unsupported case kind", c.get("kind"))
     return False
